@@ -99,6 +99,9 @@ func descN(v ssa.Value, depth int, seen map[ssa.Value]bool) string {
 				if sv := SingleStore(a, v); sv != nil {
 					return d(sv)
 				}
+				if sv := blockLocalStore(a, v); sv != nil {
+					return d(sv)
+				}
 			}
 			if fa, ok := v.X.(*ssa.FieldAddr); ok {
 				if a, ok := fa.X.(*ssa.Alloc); ok && a.Comment != "complit" && a.Comment != "new" {
@@ -557,4 +560,69 @@ func CapturedValue(fv *ssa.FreeVar) ssa.Value {
 func unexportedNamed(t types.Type) bool {
 	n, ok := t.(*types.Named)
 	return ok && !n.Obj().Exported()
+}
+
+// blockLocalStore: for a local with several stores, the value a load sees
+// when exactly one store reaches it (flow-sensitive reaching definitions over
+// the CFG). When closures write the cell, any call or channel operation on
+// the way counts as an unknown definition. E.g. `err = f(); if err != nil`.
+func blockLocalStore(a *ssa.Alloc, load ssa.Instruction) ssa.Value {
+	shared := false
+	if refs := a.Referrers(); refs != nil {
+		for _, r := range *refs {
+			if mc, ok := r.(*ssa.MakeClosure); ok {
+				for i, b := range mc.Bindings {
+					if b == a && closureWrites(mc.Fn.(*ssa.Function), i, 0) {
+						shared = true
+					}
+				}
+			}
+		}
+	}
+	var found ssa.Value
+	unknown := false
+	seen := map[*ssa.BasicBlock]bool{}
+	var scan func(b *ssa.BasicBlock, from int)
+	scan = func(b *ssa.BasicBlock, from int) {
+		if unknown {
+			return
+		}
+		for i := from; i >= 0; i-- {
+			switch x := b.Instrs[i].(type) {
+			case *ssa.Store:
+				if x.Addr == a {
+					if found != nil && found != x.Val {
+						unknown = true
+					}
+					found = x.Val
+					return
+				}
+			case *ssa.Call, *ssa.Send, *ssa.Select, *ssa.Go, *ssa.Defer, *ssa.RunDefers:
+				if shared {
+					unknown = true
+					return
+				}
+			case *ssa.UnOp:
+				if shared && x.Op == token.ARROW {
+					unknown = true
+					return
+				}
+			}
+		}
+		if len(b.Preds) == 0 {
+			unknown = true // reaches the entry: zero value
+			return
+		}
+		for _, p := range b.Preds {
+			if !seen[p] {
+				seen[p] = true
+				scan(p, len(p.Instrs)-1)
+			}
+		}
+	}
+	scan(load.Block(), IndexOf(load)-1)
+	if unknown {
+		return nil
+	}
+	return found
 }
